@@ -203,6 +203,33 @@ def mux_targeted_op(draw, model, counter):
                     else "name_unchanged", "kind_" + kind]}
 
 
+def move_ops(draw, model, counter):
+    """'Move' a leaf component: delete it and add it again (same kind and parameters, same or
+    new name) under another parent - two consecutive operations with no analysis in between."""
+    ch = S.children_map(model)
+    leaves = [n for n in model["nodes"] if n["kind"] != "Source" and not ch[n["name"]]
+              and len(n["parents"]) == 1]
+    if not leaves:
+        return None
+    x = draw(st.sampled_from(leaves))
+    others = [n["name"] for n in model["nodes"] if n["kind"] not in S.LOADS
+              and n["name"] != x["name"] and n["name"] != x["parents"][0]]
+    if not others:
+        return None
+    newpar = draw(st.sampled_from(others))
+    same = draw(st.booleans())
+    name = x["name"] if same else fresh_name(draw, model, counter)
+    comp = {"name": name, "kind": x["kind"], "params": copy.deepcopy(x["params"]),
+            "limits": copy.deepcopy(x.get("limits"))}
+    return [
+        {"op": "del_comp", "target": x["name"], "del_childs": True,
+         "cls": ["target_by_name", "move"]},
+        {"op": "add_comp", "parent": newpar, "comp": comp, "group": x["group"],
+         "rail": x["rail"], "cls": ["move", "name_of_deleted_component" if same else "fresh",
+                                    "kind_" + x["kind"], "parent_by_name"]},
+    ]
+
+
 def draw_op(draw, model, counter):
     nm = S.node_map(model)
     names = list(nm)
@@ -210,6 +237,10 @@ def draw_op(draw, model, counter):
     has_mux = any(k == "PMux" for k in kind_of.values())
     if has_mux and draw(st.integers(0, 6)) == 3:
         return mux_targeted_op(draw, model, counter)
+    if draw(st.integers(0, 9)) == 4:
+        mv = move_ops(draw, model, counter)
+        if mv:
+            return mv
     which = draw(st.sampled_from(
         ["add_comp"] * 6 + ["add_source"] * 2 + ["change_comp"] * 4 + ["del_comp"] * 3
         + ["set_sys_phases"] * 2 + ["set_comp_phases"] * 2))
@@ -1184,7 +1215,11 @@ def make_machine(focus, tier, c16_every=1):
                 self.counter += 1
                 op = draw_op(data.draw, self.d.model, self.counter)
                 try:
-                    r = self.d.step(op)
+                    r = "ok"
+                    for one in (op if isinstance(op, list) else [op]):
+                        r = self.d.step(one)
+                        if r == "abort":
+                            break
                 except Fail as f:
                     record["case"] = list(self.d.ops)
                     record["fail"] = f
